@@ -1180,7 +1180,7 @@ def roundtrip_stage(ctx: vlib.Ctx) -> None:
         jobs.insert(1, ("seedgrp", {"root": os.path.join(work, "sa"), "modules": seed_group}, "0"))
         jobs.append(("seedgrp@seed", {"root": os.path.join(work, "sb"), "modules": seed_group}, "12345"))
         for pn, files in PROGRAMS.items():
-            for tag, seed in (("", "0"), ("@seed", "4711")):
+            for tag, seed in ((("", "0"), ("@seed", "4711")) if pn == "kinds" else (("", "0"),)):
                 root = os.path.join(work, f"p_{pn}{'b' if tag else ''}")
                 src = os.path.join(root, "src")
                 fm = {}
@@ -1230,6 +1230,8 @@ def roundtrip_stage(ctx: vlib.Ctx) -> None:
                     ctx.violation(f"{kind}:{pb.get('fmt')}:{pb.get('module')}:{(pb.get('diff') or [['']])[0][0]}",
                                   f"{kind} ({pb.get('fmt')} format) in module {pb.get('module')}: {str(pb.get('diff') or pb.get('exc') or pb.get('len'))[:400]}",
                                   {"job": name, "spec": {k: v for k, v in spec.items() if k != 'root'}, **pb})
+            # a module whose only difference is the order of a str->Type map is reported once, under that key
+            order_only = {(name, pb["module"]) for pb in r["problems"] if pb["kind"] == "type-map-order-differs"}
             for mod, m in r["modules"].items():
                 if "@seed" in name:
                     continue
@@ -1241,7 +1243,7 @@ def roundtrip_stage(ctx: vlib.Ctx) -> None:
                 for a, b, what in (("fresh_ser_bin", "fresh_ser_json", "fresh trees of the two cold runs"),
                                    ("reload_bin_bin", "reload_bin_json", "binary dumps of binary-reloaded and JSON-reloaded trees"),
                                    ("fresh_bin_bin", "reload_bin_json", "binary dump of fresh tree vs JSON-reloaded tree")):
-                    if a in m and b in m and m[a] != m[b]:
+                    if a in m and b in m and m[a] != m[b] and (name, mod) not in order_only:
                         ctx.violation(f"cross-format:{what}:{mod}", f"module {mod}: {what} differ", {"job": name, "module": mod, "a": a, "b": b})
                 for fmt in ("bin", "json"):
                     if m.get("reloaded_" + fmt) == "not-loaded" and mod not in ("xml.parsers",) and not mod.endswith("c11main"):
